@@ -9,6 +9,13 @@ def design(ctx, thorough):
                              workers=8)
 
 
+def reader_design(ctx):
+    """byte-level model of the packet reader: any read partition (C02), any failure offset (C14)"""
+    ctx.tlc_mc("", "MC_PacketReader", "MC_PacketReader.cfg", workers=4)
+    ctx.tlc_expect_violation("", "MC_PacketReader", "MC_PacketReader_AsIs.cfg",
+                             "pinned header read: a header split over two reads is an error", workers=2)
+
+
 def tlc_behaviours(ctx, n):
     g = ctx.tlc_generate("", "MC_RxPath", "GenSim_RxPath.cfg", workers=4,
                          args=["-simulate", "num=%d" % (n // 4), "-depth", "30", "-seed", str(ctx.seed)])
